@@ -76,6 +76,9 @@ func updatePolicyEngineObjectsFromDirPath(pe *eval.PolicyEngine, podNames []type
 	eLogger := logger.NewDefaultLoggerWithVerbosity(determineLogVerbosity())
 
 	rList, errs := fsscanner.GetResourceInfosFromDirPath([]string{dirPath}, true, false)
+	if len(errs) == 0 {
+		errs = nil // no errors from the builder
+	}
 	if errs != nil {
 		// TODO: consider avoid logging this error because it is already printed to log by the builder
 		if len(rList) == 0 || stopOnFirstError {
